@@ -320,6 +320,22 @@ pub fn capacity_texts() -> Vec<Vec<u8>> {
     }
     out
 }
+/// block size fields that do not fit 32 bits but are congruent to a valid block size modulo 2^32
+/// (or modulo a power of ten times 2^32): a wrapping accumulator would accept them
+pub fn wrap_texts() -> Vec<Vec<u8>> {
+    let mut out = vec![];
+    for n in 0..31u32 {
+        let v = 3u128 << n;
+        for m in [1u128, 2, 3, 5, 10, 100, 1 << 32, (1 << 32) + 1] {
+            out.push(format!("{}:abc:def", v + (m << 32)).into_bytes());
+        }
+        // digits of 2^32 (and of 2^32 * 10^j) followed by the digits of the valid size
+        out.push(format!("4294967296{}:abc:def", v).into_bytes());
+        out.push(format!("4294967296{:010}:abc:def", v).into_bytes());
+        out.push(format!("8589934592{:03}:abc:def", v % 1000).into_bytes());
+    }
+    out
+}
 pub fn mutated_text(rng: &mut Rng) -> Vec<u8> {
     let inject: &[u8] = &[b':', b',', b'!', b' ', 0x80, 0xff, 0, b'=', b'-', b'A', b'/', b'+', b'0', b'9'];
     let mut t: Vec<u8> = if rng.chance(1, 3) {
@@ -404,7 +420,7 @@ pub fn drive_parse(a: &Args, thorough: bool) {
     }
     // (b') the families at the capacity borders, deterministically: one run of every length 60..72
     //      (and 28..40 for block hash 2) alone and after 1..3 other characters
-    for (i, t) in border_texts().iter().chain(capacity_texts().iter()).enumerate() {
+    for (i, t) in border_texts().iter().chain(capacity_texts().iter()).chain(wrap_texts().iter()).enumerate() {
         if i % 8 == 0 {
             sh.next_unit();
         }
